@@ -113,7 +113,7 @@ def render(tmpl, layout, q, q2=None):
         text = _BREAK_RE.sub(lambda m: '\n  ' + m.group(1), text)
         text = text.replace('({q})', '(\n    {q}\n  )').replace('({q2})', '(\n    {q2}\n  )')
     elif layout == 3:
-        text = '-- stmt\n\n   ' + text.replace('({q})', '(  {q}\n)').replace('({q2})', '(\t{q2}\n   )') + ' ;\n'
+        text = '  \n-- stmt\n\n   ' + text.replace('({q})', '(  {q}\n)').replace('({q2})', '(\t{q2}\n   )') + ' ;\n'
     return text.replace('{q}', q).replace('{q2}', q2 if q2 is not None else 'select 2')
 
 
@@ -149,6 +149,7 @@ FIXED = [
     "  select a  ",
     "\n\tselect a\r\n",
     "select 'a\nb'",
+    "select 'a \n  b', \"c\t\n\td\"",
     "select '  two  blanks  ', `a  b`",
     "select '-- not a comment', '/* nor this */'",
     "select '(' , ')' ",
@@ -173,7 +174,7 @@ FIXED = [
 ]
 
 STRINGS = ["'x'", "'a b'", "''", "'2020-01-01'", "'it''s'", "''''", "'''a'", "'a'''", "'a\\'b'", "'a\\\\'", "'\\\\'",
-           "'%'", "'\"'", "'a\\\"b'", "'-- c'", "'/* c */'", "'a  b'", "'a\nb'", "'('", "')'", "'@v'", "' '",
+           "'%'", "'\"'", "'a\\\"b'", "'-- c'", "'/* c */'", "'a  b'", "'a\nb'", "'a \n  b'", "'('", "')'", "'@v'", "' '",
            '"x"', '"a b"', '"a.b"', '"it\'s"', '"a\\"b"', '"a\\\'b"', '""', '"-- c"', '"a  b"', '"("']
 VARS = ['@v', '@abc', '@a.b', '@$x', '@_y', "@'a b'", '@"a b"', '@`a b`', "@'x'", '@@sv', '@@a.b', "@@'a b'", '@@"a b"',
         '@@`a b`', "@'a  b'", '@@$s']
@@ -200,6 +201,7 @@ _CORPUS = []
 
 def prepare(tier):
     grammar.get('mindsdb')
+    _CORPUS.clear()
     seen = set()
     for x in corpus.accepted():
         s = re.sub(r'[\s;]+$', '', x['sql'])
@@ -474,14 +476,10 @@ def attribute(tmpl, slot, inner, stored, cfg, sql):
     recs = []
     seen = set()
     bad = {}
-    n = 0
     for k, s in rawtext.scan(inner):
         if k in ('ws', 'punct') or s in seen:
             continue
         seen.add(s)
-        n += 1
-        if n > 80:
-            break
         r = isolate(tmpl, slot, k, s)
         if r is not None:
             bad[s] = r
